@@ -270,7 +270,7 @@ pub fn c19(tier: Tier) -> Check {
         assumptions: vec!["the third-party family (harness/src/third_party.rs) is written the way /repo/tests/custom_packet.rs shows a downstream user doing it"],
         legs: vec![
             super::parse::len_leg(tier, c19_len_oracle),
-            Box::new(RandomLeg { name: "random-third-party", cases: tier.pick(960_000, 3_000_000), make: Box::new(third_case), oracle: c19_oracle }),
+            Box::new(RandomLeg { name: "random-third-party", cases: tier.pick(960_000, 9_000_000), make: Box::new(third_case), oracle: c19_oracle }),
             Box::new(SweepLeg {
                 name: "helpers-padding-x-count-x-family",
                 n: 256 * 32 * 6,
